@@ -997,6 +997,15 @@ func (env *SpecEnv) callExpr(x ECall) Val {
 		// the allocation counter: every object allocated from now on has a
 		// reference >= nextref()
 		return intVal(env.st.nextRef)
+	case "wgtok", "wgst", "mayclose":
+		// thread-local ghost permissions of the current goroutine:
+		// wgtok(wgptr): outstanding WaitGroup.Add units it owns (it still has to
+		// call Done for them); wgst(wgptr): 0 nothing, 1 it created the WaitGroup
+		// and may still Add, 2 it may Wait (no Add can follow), 3 it has returned
+		// from Wait; mayclose(ch): 1 if it holds the unique, unused permission to
+		// close channel ch
+		v := env.eval(x.Args[0])
+		return intVal(sel(e.tlHeap(env.st, "G$"+x.Fn), v.T))
 	case "held":
 		// held(mutexptr) -> lock mode 0 none, 1 read, 2 write
 		v := env.eval(x.Args[0])
